@@ -61,16 +61,26 @@ ExecdirDom(roots) ==
 (* reached entries in visit order, everything has run when find exits      *)
 (* (also after -quit), for -execdir an invocation holds entries of one     *)
 (* directory only, named ./basename, run in that directory; find's status  *)
-(* is non-zero iff some invocation failed.                                 *)
+(* is non-zero iff some invocation failed; the action is true on every      *)
+(* entry.                                                                  *)
 (* obsExecs: sequence of [argv, cwd] as recorded.                          *)
 (***************************************************************************)
 Appended(x, nfixed) == SubSeq(x.argv, nfixed + 1, Len(x.argv))
 
 \* quitPath: -quit is evaluated (after the action) on the first reached entry with this path; <<>> = no -quit
-MultiExecShape(tree, cfg, roots, pre, fixed, execdir, quitPath, obsExecs) ==
+MultiReached(tree, cfg, roots, pre, quitPath) ==
   LET all == Reached(tree, cfg, roots, pre)
       hits == {k \in DOMAIN all : all[k].path = quitPath}
-      r == IF quitPath # <<>> /\ hits # {} THEN SubSeq(all, 1, CHOOSE k \in hits : \A j \in hits : k <= j) ELSE all
+  IN IF quitPath # <<>> /\ hits # {} THEN SubSeq(all, 1, CHOOSE k \in hits : \A j \in hits : k <= j) ELSE all
+
+\* "The action itself is always true": what stands after it is evaluated on every reached entry, whether or not
+\* an invocation has failed by then.  obsN / obsPaths: the entries a -printf placed after the action(s) reported.
+MultiTruthOK(tree, cfg, roots, pre, quitPath, obsN, obsPaths, listed) ==
+  LET r == MultiReached(tree, cfg, roots, pre, quitPath) IN
+  obsN = Len(r) /\ (listed => obsPaths = Paths(r))
+
+MultiExecShape(tree, cfg, roots, pre, fixed, execdir, quitPath, obsExecs) ==
+  LET r == MultiReached(tree, cfg, roots, pre, quitPath)
       want == [k \in DOMAIN r |-> ArgPath(r[k], execdir)]
       nf == Len(fixed)
   IN
